@@ -674,6 +674,8 @@ class Gen:
                 return call
             # need a specific type: wrap so that the typed value is produced regardless of the call result
             return ("do", [call, self.expr(ty, env, d - 1, tail)])
+        if c < 0.74:
+            return self.fnloop(ty, env, d)
         if c < 0.8:
             return self.loop(ty, env, d)
         if c < 0.9:
@@ -730,6 +732,39 @@ class Gen:
         if r.random() < 0.2:
             body = [self.expr("any", e2, d - 2)] + body
         return ("loop", binds, body)
+
+    def fnloop(self, ty, env, d):
+        """a function that loops through fn-level recur: ((fn* [n a ..] (if (< n K) (recur (inc n) e ..) result)) 0 init ..)"""
+        r = self.r
+        e0 = {nm: (t[6:] if t.startswith("catch:") else t) for nm, t in self.fn_env(env).items()}
+        n = self.param_name([])
+        params = [n]
+        e2 = dict(e0)
+        e2[n] = "int"
+        self.param_names.add(n)
+        others = []
+        for _ in range(r.randint(0, 2)):
+            p = self.param_name(params)
+            params.append(p)
+            self.param_names.add(p)
+            t = r.choice(["int", "any", "vec"])
+            e2[p] = t
+            others.append((p, t))
+        k = r.randint(0, 3)
+        rec = ("recur", [("prim", "inc", [("local", n)])] + [self.expr(t, e2, d - 2) for _, t in others])
+        res = self.expr(ty, e2, d - 2)
+        shape = r.random()
+        if shape < 0.5:
+            body = [("if", ("prim", "<", [("local", n), ("const", k)]), rec, res)]
+        elif shape < 0.75:
+            body = [("if", ("prim", "<", [("local", n), ("const", k)]), ("do", [self.expr("any", e2, d - 2), rec]), res)]
+        else:
+            body = [("if", ("prim", "<", [("local", n), ("const", k)]), ("let", [("tmp'", self.expr("any", e2, d - 2))], [rec]), res)]
+        if r.random() < 0.2:
+            body = [self.expr("any", e2, d - 2)] + body
+        f = ("fn", r.choice([None, "self-fn"]), [(params, None, body)])
+        inits = [("const", 0)] + [self.expr(t, env, d - 2) for _, t in others]
+        return ("call", f, inits)
 
     def try_(self, ty, env, d):
         r = self.r
